@@ -96,7 +96,7 @@ Theorem achain_write_forward d (w : @acw R1S RWS) :
   | (AWPending, r') => Val PPending {| ac_has := ac_has w; ac_first := ac_first w; ac_rw := r' |}
   | (AWPanic, r') => Panic {| ac_has := ac_has w; ac_first := ac_first w; ac_rw := r' |}
   end.
-Proof. unfold achain_poll_write, bind, awr_call. destruct (pwr W2 (ac_rw w) d) as [[n|k| |] r']; reflexivity. Qed.
+Proof. unfold achain_poll_write, acall_rw_write, bind, awr_call. destruct (pwr W2 (ac_rw w) d) as [[n|k| |] r']; reflexivity. Qed.
 Theorem achain_flush_forward (w : @acw R1S RWS) :
   achain_poll_flush (R1S := R1S) W2 w =
   match pfl W2 (ac_rw w) with
@@ -105,7 +105,7 @@ Theorem achain_flush_forward (w : @acw R1S RWS) :
   | (AFPending, r') => Val PPending {| ac_has := ac_has w; ac_first := ac_first w; ac_rw := r' |}
   | (AFPanic, r') => Panic {| ac_has := ac_has w; ac_first := ac_first w; ac_rw := r' |}
   end.
-Proof. unfold achain_poll_flush, bind, awr_call. destruct (pfl W2 (ac_rw w)) as [[|k| |] r']; reflexivity. Qed.
+Proof. unfold achain_poll_flush, acall_rw_flush, bind, awr_call. destruct (pfl W2 (ac_rw w)) as [[|k| |] r']; reflexivity. Qed.
 Theorem achain_shutdown_forward (w : @acw R1S RWS) :
   achain_poll_shutdown (R1S := R1S) W2 w =
   match psh W2 (ac_rw w) with
@@ -114,7 +114,7 @@ Theorem achain_shutdown_forward (w : @acw R1S RWS) :
   | (AFPending, r') => Val PPending {| ac_has := ac_has w; ac_first := ac_first w; ac_rw := r' |}
   | (AFPanic, r') => Panic {| ac_has := ac_has w; ac_first := ac_first w; ac_rw := r' |}
   end.
-Proof. unfold achain_poll_shutdown, bind, awr_call. destruct (psh W2 (ac_rw w)) as [[|k| |] r']; reflexivity. Qed.
+Proof. unfold achain_poll_shutdown, acall_rw_shutdown, bind, awr_call. destruct (psh W2 (ac_rw w)) as [[|k| |] r']; reflexivity. Qed.
 End ACHAIN.
 
 (* ---- take: an async stream whose observable behaviour depends only on the capacity it is offered ---- *)
@@ -327,7 +327,7 @@ Theorem atake_write_forward d (w : @atw RWS) :
   | (AWPending, r') => Val PPending {| at_rem := at_rem w; at_rw := r' |}
   | (AWPanic, r') => Panic {| at_rem := at_rem w; at_rw := r' |}
   end.
-Proof. unfold atake_poll_write, bind, atwr_call. destruct (pwr W2 (at_rw w) d) as [[n|k| |] r']; reflexivity. Qed.
+Proof. unfold atake_poll_write, atcall_rw_write, bind, atwr_call. destruct (pwr W2 (at_rw w) d) as [[n|k| |] r']; reflexivity. Qed.
 Theorem atake_flush_forward (w : @atw RWS) :
   atake_poll_flush W2 w =
   match pfl W2 (at_rw w) with
@@ -336,7 +336,7 @@ Theorem atake_flush_forward (w : @atw RWS) :
   | (AFPending, r') => Val PPending {| at_rem := at_rem w; at_rw := r' |}
   | (AFPanic, r') => Panic {| at_rem := at_rem w; at_rw := r' |}
   end.
-Proof. unfold atake_poll_flush, bind, atwr_call. destruct (pfl W2 (at_rw w)) as [[|k| |] r']; reflexivity. Qed.
+Proof. unfold atake_poll_flush, atcall_rw_flush, bind, atwr_call. destruct (pfl W2 (at_rw w)) as [[|k| |] r']; reflexivity. Qed.
 Theorem atake_shutdown_forward (w : @atw RWS) :
   atake_poll_shutdown W2 w =
   match psh W2 (at_rw w) with
@@ -345,5 +345,5 @@ Theorem atake_shutdown_forward (w : @atw RWS) :
   | (AFPending, r') => Val PPending {| at_rem := at_rem w; at_rw := r' |}
   | (AFPanic, r') => Panic {| at_rem := at_rem w; at_rw := r' |}
   end.
-Proof. unfold atake_poll_shutdown, bind, atwr_call. destruct (psh W2 (at_rw w)) as [[|k| |] r']; reflexivity. Qed.
+Proof. unfold atake_poll_shutdown, atcall_rw_shutdown, bind, atwr_call. destruct (psh W2 (at_rw w)) as [[|k| |] r']; reflexivity. Qed.
 End ATAKE.
